@@ -44,7 +44,63 @@ func main() {
 			run.Sample(json.RawMessage(raw))
 		}
 	})
+	legacyTables()
 	run.Finish("cases = TLC-enumerated profiles (first sample: every stack shape of depth 1..3 over single-line, 2-line and 3-line inlined locations whose names are drawn from {a, b, u, .a, a(int), ab, xb} and an unsymbolised location; second sample shares the first one's root-most location in a position where the rule applies differently) x every drop set over {a, b, ab} x keep sets, for Prune and PruneFrom; each replayed through RemoveUninteresting (expression as an unparenthesised alternation), Prune/PruneFrom with compiled regexps, with shared and with duplicated locations, and through the driver; non-trivial = case in which a frame is removed, distinct by (expression, expected result)")
+}
+
+// legacyTables: the built-in expressions a legacy profile gets, observed through what they do. The parsed profile's
+// single stack is given names afterwards (root -> leaf: main, <middle>, work, <leaf>) and RemoveUninteresting is
+// applied: a profiler-internal leaf goes, a Go runtime frame the heap tables name as "keep" stays with all below it.
+func legacyTables() {
+	docs := map[string]string{
+		"heap":       "heap profile: 1: 16 [1: 16] @ heapprofile\n1: 16 [1: 16] @ 0x10 0x20 0x30 0x40\n",
+		"contention": "--- contentionz 1 ---\ncycles/second = 1000000000\nsampling period = 1\n100 1 @ 0x10 0x20 0x30 0x40\n",
+		"gocount":    "goroutine profile: total 1\n1 @ 0x10 0x20 0x30 0x40\n",
+	}
+	type probe struct {
+		kind, middle, leaf string
+		want               []string // root -> leaf after pruning
+	}
+	probes := []probe{
+		{"heap", "helper", "malloc", []string{"main", "helper", "work"}},
+		{"heap", "helper", "tc_new", []string{"main", "helper", "work"}},
+		{"heap", "runtime.panic", "malloc", []string{"main", "runtime.panic", "work"}}, // kept although runtime.* is dropped
+		{"heap", "runtime.call32", "runtime.mallocgc", []string{"main", "runtime.call32", "work"}},
+		{"heap", "runtime.reflectcall", "calloc", []string{"main", "runtime.reflectcall", "work"}},
+		{"heap", "runtime.gopark", "malloc", []string{"main"}}, // an ordinary runtime frame is dropped with all below it
+		{"contention", "helper", "Mutex::Unlock", []string{"main", "helper", "work"}},
+		{"contention", "runtime.panic", "RecordLockProfileData", []string{"main", "runtime.panic", "work"}},
+		{"contention", "helper", "malloc", []string{"main", "helper", "work", "malloc"}}, // not a lock-profiler frame
+		{"gocount", "helper", "__pthread_sighandler", []string{"main", "helper", "work"}},
+		{"gocount", "helper", "malloc", []string{"main", "helper", "work", "malloc"}},
+	}
+	for _, pr := range probes {
+		p, err := profile.ParseData([]byte(docs[pr.kind]))
+		run.Count("legacytables|" + pr.kind + "|" + pr.middle + "|" + pr.leaf)
+		if err != nil || len(p.Sample) != 1 || len(p.Sample[0].Location) != 4 {
+			run.Infra(fmt.Sprintf("legacy tables: %s document: %v", pr.kind, err))
+			continue
+		}
+		names := []string{pr.leaf, "work", pr.middle, "main"} // leaf first, as the sample lists its locations
+		for i, l := range p.Sample[0].Location {
+			fn := &profile.Function{ID: uint64(i + 1), Name: names[i], SystemName: names[i]}
+			p.Function = append(p.Function, fn)
+			l.Line = []profile.Line{{Function: fn}}
+		}
+		if err := p.RemoveUninteresting(); err != nil {
+			run.Violate("api", "legacy-tables:error", err.Error(), pr, nil)
+			continue
+		}
+		var got []string
+		for i := len(p.Sample[0].Location) - 1; i >= 0; i-- {
+			for j := len(p.Sample[0].Location[i].Line) - 1; j >= 0; j-- {
+				got = append(got, p.Sample[0].Location[i].Line[j].Function.Name)
+			}
+		}
+		if strings.Join(got, ">") != strings.Join(pr.want, ">") {
+			run.Violate("api", "legacy-tables:"+pr.kind, fmt.Sprintf("legacy %s profile with stack main > %s > work > %s: after the built-in frame dropping %v, want %v (drop_frames %q, keep_frames %q)", pr.kind, pr.middle, pr.leaf, got, pr.want, p.DropFrames, p.KeepFrames), pr, nil)
+		}
+	}
 }
 
 // alternation renders a set of simplified names as drop_frames text: a bare
